@@ -155,6 +155,7 @@ class Gen:
     def __init__(self, reg, it, variant):
         self.reg, self.it, self.variant = reg, it, variant
         self.falsy = variant == 4      # every leaf is the falsy value of its type (0, False, '', b'', []): present, and to be written as such
+        self.long_vectors = variant == 5   # every vector has three items and no optional field is present: the items are as short as the schema allows
         self.n = 0
         self.too_deep = False
 
@@ -195,7 +196,7 @@ class Gen:
             return s, s, enc
         if t.startswith('('):
             sub = t[1:-1].split()[1]
-            k = (self.n + self.variant) % 4 if not self.falsy else 0
+            k = 3 if self.long_vectors else (self.n + self.variant) % 4 if not self.falsy else 0
             self.n += 1
             vals, exps, enc = [], [], [(K(k.to_bytes(4, 'little')), 4)]
             for _ in range(k):
@@ -338,6 +339,8 @@ def _worker(arg):
         for variant in variants:
             if variant == 4 and not any('?' in t for _, t in d['args']):
                 continue        # the falsy-values variant is about flag-selected fields
+            if variant == 5 and not any(t.startswith('(vector') for _, t in d['args']):
+                continue        # the long-vectors variant is about vector fields
             it = mk(prog)
             g = Gen(reg, it, variant)
             try:
@@ -443,7 +446,7 @@ def check(run):
     run.count('constructors_supported', len(names))
     run.info(f'{len(names)} of {len(reg.decls)} bundled declarations have only supported field types; unsupported classes: ' +
              '; '.join(f'{k}: {len(v)}' for k, v in sorted(unsupported.items(), key=lambda kv: -len(kv[1]))[:8]))
-    variants = (0, 1, 2, 3, 4) if thorough else (0, 1, 4)
+    variants = (0, 1, 2, 3, 4, 5) if thorough else (0, 1, 4, 5)
     nproc = min(16, mp.cpu_count())
     chunks = [(prog.pkg, names[i::nproc], variants) for i in range(nproc)]
     with mp.Pool(nproc) as pool:
